@@ -329,6 +329,8 @@ class LLSWorld(World):
             # the forward operator fails once in the middle of the run; the caller catches the
             # error and calls run() again
             plan["faults"].append({"seam": "operator", "at_call": rng.randint(2, 40)})
+        # sometimes the caller steps and polls the algorithm inside the app before run()
+        plan["pre"] = rng.choice([[], [], [], ["U", "D"], ["D", "D"], ["U", "D", "D"], ["U", "R"]])
         plan["schedule"] = ["RUN"]
         return plan
 
@@ -558,6 +560,23 @@ class LLSWorld(World):
                         self._flag(res, "caller_array_modified", "LinearLeastSquares." + eff, cnt["n"],
                                    {"changed": badl, "update": cnt["n"], "A": plan["A"]["kind"]})
             alg.update = counting_update
+            if judge_ledger or True:
+                for a_ in plan.get("pre", []):
+                    try:
+                        if a_ == "U":
+                            if not alg.done():
+                                alg.update()
+                                out["pre_updates"] = out.get("pre_updates", 0) + 1
+                        elif a_ == "D":
+                            alg.done()
+                        elif a_ == "R":
+                            getattr(alg, "resid", None)
+                    except Exception as e:
+                        if not caused_by_injected_fault(e):
+                            out["raised"] = e
+                        break
+                if plan.get("pre"):
+                    stats["buggify.caller_polls_algorithm_before_run"] += 1
             xr = None
             try:
               for attempt in range(3):
@@ -707,9 +726,9 @@ class LLSWorld(World):
             stats["probes.objective_values_compared"] += 1
             ov = app1.objective_values
             Fh = F(xv)
-            if len(ov) != r1["updates"] + 1 and not r1.get("resumed"):
+            if len(ov) != r1["updates"] - r1.get("pre_updates", 0) + 1 and not r1.get("resumed"):
                 self._flag(res, "objective_values_length", site, 0, {"len": len(ov), "updates": r1["updates"]})
-            elif not np.isfinite(ov[-1]) or abs(ov[-1] - Fh) > 1e-9 * (abs(Fh) + 1):
+            elif len(ov) >= 2 and (not np.isfinite(ov[-1]) or abs(ov[-1] - Fh) > 1e-9 * (abs(Fh) + 1)):
                 self._flag(res, "objective_value_differs_from_documented_objective", site, 0,
                            {"app": float(ov[-1]), "harness": Fh, "g": gk, "G": gkG, "lamda": lam, "z": z is not None})
         # ---- twins
@@ -734,6 +753,7 @@ class LLSWorld(World):
             k["solver"], eff, plan["A"]["kind"], gk, gkG, lam > 0, z is not None, k["xgiven"], k["P"], k["steps_given"],
             k["accelerate"], k["rho"], k["complex"], k["show_pbar"], plan["twin"], n, bool(plan.get("prev")),
             bool(k.get("z_scalar")), bool(k.get("save_obj")), bool(k.get("views")), k.get("Pkind") if k["P"] else None,
+            "".join(plan.get("pre", [])),
             [(f["seam"], f.get("kind", "jump")) for f in plan["faults"]]])
 
     # ---------------------------------------------------------------- shrink
@@ -751,6 +771,10 @@ class LLSWorld(World):
         if plan.get("prev"):
             p = copy.deepcopy(plan)
             p["prev"] = None
+            yield p
+        if plan.get("pre"):
+            p = copy.deepcopy(plan)
+            p["pre"] = []
             yield p
         if plan["twin"] != "none":
             p = copy.deepcopy(plan)
